@@ -21,7 +21,8 @@ a matching", BFS soundness/completeness, alternating-path augmentation, König c
 | clause of the statement | theorem(s) over the model |
 |---|---|
 | "the servers-of-happiness value computed for any mapping from share numbers to sets of servers … equals the size of a maximum matching between servers and the shares they hold" | `soh_eq_maxMatching` (= exhaustive maximum over edge subsets injective in both coordinates), `soh_is_maxMatchingSize` (attained, and an upper bound of every matching); ingredients exported: `loop_exit_no_augmenting_path`, `bfs_sound_complete`, `soh_of_servermap` |
-| "(used for upload decisions and in check results)": the callers pass `merge_servers(existing, trackers)` / a checker's sharemap | `merge_servers_relation` (the merged map relates exactly the pairs of both arguments), `soh_of_merged` (its happiness is the maximum matching number of that union), `shares_by_server_converse`; the call sites themselves (upload.py, checker.py, filenode.py) are not modelled: they pass the dict through unchanged — not covered beyond that |
+| "(used for upload decisions …)": `upload.py` computes `servers_of_happiness(merge_servers(peer_selector.get_sharemap_of_preexisting_shares(), use_trackers))` after every allocation round and for the verdict | model `effectiveHappiness`; `upload_effective_happiness` (= maximum matching number of "server holds an existing share or has allocated a bucket for it"), with `merge_servers_relation`, `soh_of_merged`, `shares_by_server_converse` |
+| "(… and in check results)": `immutable/filenode.py` (`_gather_repair_results`: union of the check and upload sharemaps) and `mutable/checker.py` (sharemap keyed by `"<version>-sh<n>"`) build a `DictOfSets` and pass it to `servers_of_happiness` | the value of whatever map they pass is covered by `soh_eq_maxMatching`; how those two call sites build their maps is **not covered** (not modelled; outside util/happinessutil.py) |
 | "it does not depend on the iteration order of the mapping" | `soh_order_independent` (same pairs ⇒ same value, for any order and multiplicity), and every theorem above quantifies over all list presentations |
 
 Nothing of the statement is "correspondence only"; the tie of the model to the code is the trace
@@ -106,6 +107,22 @@ theorem soh_of_merged (m trackers : SetMap) (E : List (Nat × Nat))
 
 example : serversOfHappiness (mergeServers [(0, [1])] [(2, [0, 3])]) = 2 ∧
     maxMatchingBrute [(1, 0), (2, 0), (2, 3)] = 2 := by decide +kernel
+
+/-- **upload_effective_happiness**: the uploader's happiness test after a round -- existing shares as
+the selector recorded them, merged with the buckets the trackers have allocated -- is the maximum
+matching number of the relation "server holds an existing share, or has a bucket for it" -/
+theorem upload_effective_happiness (existing trackers : SetMap) (E : List (Nat × Nat))
+    (hE : ∀ p s, (p, s) ∈ E ↔ (p, s) ∈ relOfServermap existing ∨ ∃ t ∈ trackers, t.1 = p ∧ s ∈ t.2) :
+    effectiveHappiness existing trackers = (maxMatchingBrute E : Int) := by
+  unfold effectiveHappiness
+  apply soh_of_merged
+  intro p s
+  rw [hE, preexisting_rel]
+
+/-- server 0 holds share 0, server 1 holds shares 0 and 1, a tracker for server 2 has bucket 1:
+three servers, two shares, happiness 2 -/
+example : effectiveHappiness [(0, [0]), (1, [0, 1])] [(2, [1])] = 2 ∧
+    maxMatchingBrute [(0, 0), (1, 0), (1, 1), (2, 1)] = 2 := by decide +kernel
 
 /-- the loop exits because `augmenting_path_for` returned `False`, never because the fuel
 `len(graph)` ran out; at that point the flow matrix is the indicator of a matching `M` of the
